@@ -27,7 +27,7 @@ ALL_KINDS = ["io", "timer", "tcp", "udp", "lst", "acc", "pkt", "peer", "file", "
 BUGS = dict(
     BUG_ConnectLeak="FALSE", BUG_PacketBindLeak="FALSE", BUG_PeerLeak="FALSE", BUG_WsLeak="FALSE",
     BUG_ListenerNoGuard="FALSE", BUG_PacketNoGuard="FALSE", BUG_TimerRevive="FALSE",
-    BUG_AdapterRawClose="FALSE", BUG_EarlyDeregister="FALSE",
+    BUG_AdapterRawClose="FALSE", BUG_EarlyDeregister="FALSE", BUG_WsResetLeak="FALSE",
     BUG_SocketNonblockLeak="TRUE", BUG_AcceptLeak="TRUE")
 
 BEFORE_REPAIR = {k: "TRUE" for k in BUGS}
@@ -37,25 +37,28 @@ def kinds(ks):
     return "{" + ", ".join('"%s"' % k for k in ks) + "}"
 
 
-def configs(tier):
+def configs(tier, seed=1):
+    import random
     q = tier == "quick"
     cs = []
+    rnd = random.Random(seed)
+    cuts = sorted({1, 128} | {rnd.randrange(2, 128) for _ in range(3)})   # quick: the seed picks where the server cuts its response
     cs.append(("ctor", dict(MaxObj=1, MaxOps=3, MaxClose=2, MaxPlug=0, Kinds=kinds(ALL_KINDS), WithFail="TRUE",
-                            WithUninj="FALSE", WithGc="FALSE",
-                            TruncK="{1, 17, 60, 128}" if q else "{" + ", ".join(str(k) for k in range(1, 129)) + "}"), 2))
-    cs.append(("close", dict(MaxObj=2, MaxOps=6 if q else 7, MaxClose=2 if q else 3, MaxPlug=1, Kinds=kinds(ALL_KINDS), WithFail="FALSE",
-                             WithUninj="FALSE", WithGc="FALSE", TruncK="{1}"), 4))
+                            WithUninj="FALSE", WithGc="FALSE", WithRehs="TRUE",
+                            TruncK="{" + ", ".join(map(str, cuts)) + "}" if q else "{" + ", ".join(str(k) for k in range(1, 129)) + "}"), 2))
+    cs.append(("close", dict(MaxObj=2, MaxOps=5 if q else 7, MaxClose=2 if q else 3, MaxPlug=1, Kinds=kinds(ALL_KINDS), WithFail="FALSE",
+                             WithUninj="FALSE", WithGc="FALSE", WithRehs="FALSE", TruncK="{1}"), 4))
     cs.append(("gc", dict(MaxObj=1, MaxOps=6 if q else 8, MaxClose=1, MaxPlug=0, Kinds=kinds(ALL_KINDS), WithFail="FALSE",
-                          WithUninj="FALSE", WithGc="TRUE", TruncK="{1}"), 2))
+                          WithUninj="FALSE", WithGc="TRUE", WithRehs="FALSE", TruncK="{1}"), 2))
     cs.append(("gc2", dict(MaxObj=2, MaxOps=5 if q else 6, MaxClose=2, MaxPlug=0,
                            Kinds=kinds(["tcp", "lst", "adp"] if q else ["tcp", "acc", "lst", "pkt", "adp", "timer"]),
-                           WithFail="FALSE", WithUninj="FALSE", WithGc="TRUE", TruncK="{1}"), 4))
+                           WithFail="FALSE", WithUninj="FALSE", WithGc="TRUE", WithRehs="FALSE", TruncK="{1}"), 4))
     if not q:
         cs.append(("close3", dict(MaxObj=3, MaxOps=6, MaxClose=2, MaxPlug=1,
                                   Kinds=kinds(["timer", "tcp", "lst", "pkt", "peer", "adp", "ws"]), WithFail="FALSE",
-                                  WithUninj="FALSE", WithGc="FALSE", TruncK="{1}"), 6))
+                                  WithUninj="FALSE", WithGc="FALSE", WithRehs="TRUE", TruncK="{1}"), 6))
         cs.append(("ctor2", dict(MaxObj=2, MaxOps=3, MaxClose=1, MaxPlug=0, Kinds=kinds(ALL_KINDS), WithFail="TRUE",
-                                 WithUninj="FALSE", WithGc="FALSE", TruncK="{60}"), 4))
+                                 WithUninj="FALSE", WithGc="FALSE", WithRehs="TRUE", TruncK="{60}"), 4))
     return cs
 
 
@@ -140,7 +143,7 @@ def run(ck):
     def model_only():
         # failure points nobody can inject from outside: what the model says about them
         consts = dict(MaxObj=1, MaxOps=2, MaxClose=1, MaxPlug=0, Kinds=kinds(ALL_KINDS), WithFail="TRUE", WithUninj="TRUE",
-                      WithGc="FALSE", TruncK="{1}")
+                      WithGc="FALSE", WithRehs="FALSE", TruncK="{1}")
         consts.update(BUGS)
         c = vlib.cfg_with(sw, "FdTableImpl_mc.cfg", consts, outname="gen_uninj.cfg")
         r = vlib.tlc(sw, "FdTableImpl", c, workers=1, timeout=600)
@@ -151,7 +154,7 @@ def run(ck):
         ck._uninj = found
         # the design before the repairs: the model must show each defect (mutation evidence for the model)
         consts2 = dict(MaxObj=2, MaxOps=4 if ck.tier == "quick" else 5, MaxClose=2, MaxPlug=0, Kinds=kinds(["timer", "tcp", "udp", "lst", "pkt", "peer", "adp", "ws"]),
-                       WithFail="TRUE", WithUninj="FALSE", WithGc="TRUE", TruncK="{1}")
+                       WithFail="TRUE", WithUninj="FALSE", WithGc="TRUE", WithRehs="TRUE", TruncK="{1}")
         consts2.update(BEFORE_REPAIR)
         c2 = vlib.cfg_with(sw, "FdTableImpl_mc.cfg", consts2, outname="gen_before.cfg", drop=["ACTION_CONSTRAINT"],
                            add=["ACTION_CONSTRAINT EmitBad"])
@@ -161,7 +164,7 @@ def run(ck):
         ck.add_tlc("FdTableImpl with every BUG_* = TRUE (design before the repairs)", r2, consts2)
         ck.cov["model_rules_reached_before_repair"] = sorted({line.split('"')[3] for line in r2.lines('<<"MODELBAD"')})
 
-    cs = configs(ck.tier)
+    cs = configs(ck.tier, ck.seed)
     with ThreadPoolExecutor(max_workers=4) as ex:
         futs = [ex.submit(one, c) for c in cs] + [ex.submit(model_only)]
         for f in futs:
@@ -170,7 +173,7 @@ def run(ck):
     ck.cov["model_findings"] = sorted(model_findings)
     ck.cov["model_only_findings_uninjectable"] = [k for k in getattr(ck, "_uninj", []) if k not in model_findings]
     ck.cov["distinct_nontrivial"] = len(ck._keys)
-    ck.cov["nontrivial_by_class"] = {p: len([k for k in ck._keys if k.startswith(p + ":")]) for p in ("ctor", "reuse", "gc")}
+    ck.cov["nontrivial_by_class"] = {p: len([k for k in ck._keys if k.startswith(p + ":")]) for p in ("ctor", "rehandshake", "reuse", "gc")}
     ck.cov["exhaustive"] = True
     ck.assumptions += [
         "the kernel hands out the lowest free descriptor number (the harness plugs holes with /dev/null before lowering RLIMIT_NOFILE)",
